@@ -22,7 +22,7 @@ META = {
              'must mention every source ID it names. Signature = (kind, accessor, reference shapes, number of sources, '
              'pretty/compact, outcome).'),
     'workers': {'quick': 12, 'thorough': 16},
-    'watchdog': {'quick': 300, 'thorough': 1800},
+    'watchdog': {'quick': 600, 'thorough': 3600},
     'assumptions': ['swaps with other than two operands, roItemMoveMultiple without itemID and roStoryMove without '
                     'storyID are outside the claim'],
 }
